@@ -137,7 +137,7 @@ def kernel(rel, fired, l2=True):
 # --------------------------------------------------------------------------------------------------------
 class Query:
     def __init__(self, name, ctext, defines=(), trig=False, timeout=30, function="", where="", group=None,
-                 extra_axioms="", want_model=(), zero_axiom=False, unwind=None):
+                 extra_axioms="", want_model=(), zero_axiom=False, unwind=None, loop_contracts=False, u2r=False):
         self.__dict__.update(locals())
         del self.__dict__['self']
 
@@ -152,6 +152,7 @@ class QResult:
         self.model = {}
         self.cmds = []
         self.n_trig = 0
+        self.n_loop_obligations = 0
         self.divisors = 0
 
 
@@ -303,6 +304,24 @@ def run_query(q, bdir, inc=()):
     for d in inc:
         cmd += ["-I", d]
     cmd += ["-D" + d for d in q.defines] + [base + ".c"]
+    if q.loop_contracts:
+        # unbounded route: the loops of the extracted text carry loop contracts (//@LOOP); goto-instrument replaces each loop by
+        # base case / havoc / assumed invariant / one iteration / invariant + decreases step, and the VC is generated from that program
+        cc = ["goto-cc", "-o", base + ".a.gb"] + sum((["-I", d] for d in inc), []) + ["-D" + d for d in q.defines] + [base + ".c"]
+        rc0, out0, err0, s0 = core.run(cc, timeout=120, mem_gb=8)
+        gi = ["goto-instrument", "--apply-loop-contracts", base + ".a.gb", base + ".b.gb"]
+        rc1, out1, err1, s1 = core.run(gi, timeout=120, mem_gb=8) if rc0 == 0 else (None, "", "", 0)
+        r.seconds += s0 + s1
+        r.cmds += [" ".join(cc), " ".join(gi)]
+        if rc0 != 0 or rc1 != 0 or not os.path.exists(base + ".b.gb"):
+            r.detail = "goto-cc / goto-instrument --apply-loop-contracts failed: " + ((out0 or "") + (err0 or "") + (out1 or "") + (err1 or ""))[-600:]
+            return r
+        shown = core.run(["cbmc", "--show-properties", "--no-standard-checks", "--no-built-in-assertions", base + ".b.gb"], timeout=120, mem_gb=8)[1] or ""
+        r.n_loop_obligations = len(re.findall(r"Check that loop invariant is preserved", shown))
+        if r.n_loop_obligations < q.loop_contracts:
+            r.detail = "loop contract not applied: %d invariant-step obligations, %d expected" % (r.n_loop_obligations, q.loop_contracts)
+            return r
+        cmd = ["cbmc", "--cvc5", "--outfile", base + ".fp.smt2", "--no-standard-checks", "--no-built-in-assertions", base + ".b.gb"]
     if q.unwind:
         # loops are unwound q.unwind times.  First decide the unwinding assertions alone with plain CBMC (they depend on loop counters only): a failing one
         # means the bound is too small for this job -> undecided, never a violation.  Once they hold, paths beyond the bound do not exist and the VC is
@@ -340,7 +359,7 @@ def run_query(q, bdir, inc=()):
             r.detail = "empty VC but plain cbmc did not confirm: " + (out2 or "")[-300:]
         return r
     try:
-        forms, sw = fp2real.swap_text(src)
+        forms, sw = fp2real.swap_text(src, u2r=getattr(q, 'u2r', False))
     except Undecided as e:
         r.detail = str(e)
         return r
